@@ -28,6 +28,8 @@ const (
 )
 
 func runC03(c *eng.Ctx) {
+	c.Rule("R05.2", "K3")
+	ruleHWCheckpointIsReplacedAtomically(c)
 	// (shared with C08/C10) a reader recognises a replaced or removed segment whatever wraps the error on its way up
 	ruleSentinelIdentity(c, "R14.6", []string{cl + "(*Reader).ReadMessage", cl + "(*ReverseReader).ReadMessage"}, "the reader does not notice that the segment it was reading was replaced (compaction, truncation) or removed (retention): it fails instead of re-positioning itself and carrying on")
 
